@@ -196,6 +196,76 @@ theorem nextN_gen : ∀ (mid : List Cat) (c : Cat) (post : List Cat) (st : St),
     rw [show (d :: mid).length + 1 = (mid.length + 1) + 1 from rfl, nextN, ih, h]
     cases hs : st.store <;> simp [ecEff, Nat.add_assoc, Nat.add_comm 1]
 
+/-! ### phase 2: an in-memory list stays an in-memory list with the same filter switch, whatever is done with it -/
+
+theorem next_list_fields (st : St) (h : st.isGen = false) :
+    (next st).1.isGen = false ∧ (next st).1.applyFilters = st.applyFilters := by
+  obtain ⟨file, catalogs, isGen, cache, store, af, nCat, idx, ec, er, nb, nm⟩ := st
+  simp only at h
+  subst h
+  unfold next
+  by_cases h0 : idx = 0 <;> simp only [h0, ↓reduceIte] <;>
+    (split
+     · exact ⟨rfl, rfl⟩
+     · split
+       · exact ⟨rfl, rfl⟩
+       · split <;> simp [emit])
+
+theorem passLoop_list_fields : ∀ (fuel : Nat) (st : St) (acc : List Cat) (st' : St) (out : List Cat),
+    st.isGen = false → passLoop fuel st acc = some (st', out) →
+    st'.isGen = false ∧ st'.applyFilters = st.applyFilters
+  | 0, _, _, _, _, _, h => by simp [passLoop] at h
+  | fuel + 1, st, acc, st', out, hg, h => by
+    have hn := next_list_fields st hg
+    unfold passLoop at h
+    cases hnx : next st with
+    | mk s1 r =>
+      rw [hnx] at h hn
+      cases r with
+      | yield c =>
+        have := passLoop_list_fields fuel s1 (acc ++ [c]) st' out hn.1 h
+        exact ⟨this.1, this.2.trans hn.2⟩
+      | stop =>
+        simp only [Option.some.injEq, Prod.mk.injEq] at h
+        obtain ⟨rfl, _⟩ := h
+        exact hn
+      | assertFail => simp at h
+
+theorem fullPass_list_fields (st st' : St) (out : List Cat) (hg : st.isGen = false)
+    (h : fullPass st = some (st', out)) : st'.isGen = false ∧ st'.applyFilters = st.applyFilters :=
+  passLoop_list_fields _ st [] st' out hg h
+
+theorem getExpectedRates_list_fields (st st' : St) (r : List Nat × Nat) (hg : st.isGen = false)
+    (h : getExpectedRates st = some (st', r)) : st'.isGen = false ∧ st'.applyFilters = st.applyFilters := by
+  unfold getExpectedRates at h
+  split at h
+  · simp only [Option.some.injEq, Prod.mk.injEq] at h
+    obtain ⟨rfl, _⟩ := h
+    exact ⟨hg, rfl⟩
+  · split at h
+    · rename_i s1 cats hp
+      have := fullPass_list_fields st s1 cats hg hp
+      split at h
+      · simp only [Option.some.injEq, Prod.mk.injEq] at h
+        obtain ⟨rfl, _⟩ := h
+        exact this
+      · simp at h
+    · simp at h
+
+theorem getEventCounts_list_fields (st st' : St) (l : List Nat) (hg : st.isGen = false)
+    (h : getEventCounts st = some (st', l)) : st'.isGen = false ∧ st'.applyFilters = st.applyFilters := by
+  unfold getEventCounts at h
+  split at h
+  · split at h
+    · rename_i s1 cats hp
+      simp only [Option.some.injEq, Prod.mk.injEq] at h
+      obtain ⟨rfl, _⟩ := h
+      exact fullPass_list_fields st s1 cats hg hp
+    · simp at h
+  · simp only [Option.some.injEq, Prod.mk.injEq] at h
+    obtain ⟨rfl, _⟩ := h
+    exact ⟨hg, rfl⟩
+
 /-! ### round 4: the three configured filters of `__next__` -/
 
 /-- applying the configured filters one after the other keeps exactly the events that satisfy the conjunction of the
